@@ -35,31 +35,57 @@ TRUSTED = [
     "UnknownArgument is one class in the projection)",
 ]
 ASSUMPTIONS = [
-    "the theorems are stated for the token loop of one command level (Parser::parse's while loop = parse_loop) with an "
-    "arbitrary parser state at the `--`; that the loop reaches the `--` in the same state whatever follows it is "
-    "checked by the correspondence run and the metamorphic oracle, not proved",
-    "C05_tail_verbatim is proved for the class `sink` (after the `--` every token goes to one "
-    "multi-valued positional without terminator: the last positional when `last`/allow_missing_positional is present, "
-    "otherwise the positional the counter already points to); commands that first fill single-valued positionals "
-    "after the `--` are covered by C05_trailing_loop_is_absorb/C05_trailing_outcome and the differential run",
+    "whole-parse theorems (C05_parse_top_delivered, C05_parse_top_prefix_same and their do_parse/get_matches_with "
+    "forms) are stated for the boolean class esc_class: plain (no short flag-subcommands, as for C01), valid, and at "
+    "every level of the built tree no ignore_errors, no argument with allow_hyphen_values, no subcommand named/prefixed "
+    "`--`, no Help/Version-action argument with an env variable or default; global arguments: none for the "
+    "prefix-preservation theorems (globals_free), allowed for delivery (esc_class_g: no positional shares an id with a "
+    "global argument) and for the help/version theorems (esc_class0); parse_top with a bin name already set "
+    "(otherwise argv[0] is stored in the definition before it is built; do_parse form has no such hypothesis)",
+    "the verbatim-delivery conclusion is for two classes of levels: sink_from (after the `--` every token goes to ONE "
+    "multi-valued positional without terminator -- for every value of the positional counter (a `last` positional or "
+    "allow_missing_positional) or because the counter cannot move (`sticky`)) and chainc (single-valued positionals "
+    "followed by a multi-valued one, e.g. `<src> <dst> [rest]...`: no last/allow_missing_positional/terminators/"
+    "low-index-multiple rule, indices 1..n all declared, positionals not overriding each other); Append positionals "
+    "with num_args(1), value terminators and levels whose positionals cannot absorb the whole tail are covered by "
+    "C05_trailing_loop_is_absorb/C05_trailing_outcome, C05_escape_line_sim and the differential run only",
+    "prefix preservation (C05_*_prefix_same): at the level that consumed the `--` for command-line entries outside "
+    "`touched` (= the positional, its groups, its overrides relation); at the levels above it for all entries",
     "no multicall, no Command::defer, built-in value parsers only; OsStr = bytes (Unix)",
 ]
-TECHNIQUE = ("Coq proof (the parse loop with trailing_values set equals a classification-free loop `absorb`; relational "
-             "step characterisation; verbatim delivery, frame and escape-recognition theorems) + extracted-model/"
+TECHNIQUE = ("Coq proof (the parse loop with trailing_values set equals a classification-free loop `absorb`; one walk over "
+             "every branch of the loop body shows an iteration reads the rest of the line only through its first token, "
+             "hence by induction the state at the `--` does not depend on the tail (two-tail simulation carrying the "
+             "invariant 'a pending argument takes values'); composition through resolve_pending/react, add_env, "
+             "add_defaults, validate, the recursion into subcommands, do_parse and parse_top) + extracted-model/"
              "implementation correspondence + metamorphic oracle on the implementation")
 LEVEL_TEXT = ("Machine-checked theorems (Coq 8.16, closed under the global context) about the executable model of "
-              "Parser::parse's token loop: once trailing_values is set the loop is equal, for every command, token list "
-              "and state, to a loop that only compares a token with the value terminator of the positional it is "
-              "delivered to and pushes it; it never returns a subcommand or help-subcommand result and raises no "
-              "help/version error; for the sink class the pending values are the earlier ones followed by the tail "
-              "byte-for-byte and resolving them appends exactly those (split only at a declared delimiter, not at all "
-              "with dont_delimit_trailing_values); matcher entries of arguments unrelated to positionals are untouched; "
-              "`--` sets trailing_values unless the argument being collected accepts hyphen values.  The model is tied to "
-              "clap_builder by running the extracted model and the real crate on the same generated cases on every check; "
-              "an independent python oracle (values end with the tail, no tail token selects a subcommand/help/version, "
-              "same outcome and same command-line entries as with an innocuous tail) runs on the implementation's output.")
-LEVEL_NOTE = ("Trusted: Coq kernel, extraction, OCaml driver, Rust harness, generators. Loop-level statements: the link "
-              "'prefix processing does not depend on what follows the --' is differential/metamorphic only.")
+              "clap_builder's parser, up to parse_top: for every definition of the boolean class esc_class (valid, no "
+              "short flag-subcommands, no ignore_errors / allow_hyphen_values / subcommand named `--` / global args), "
+              "every prefix and every non-empty tail, a successful parse of `bin pre.. -- tail..` has delivered the tail: "
+              "at the level that consumed the `--` (the root or the subcommand selected by the prefix) the loop ended "
+              "without dispatching anything, no subcommand is recorded there, and the entry of the absorbing positional "
+              "(class sink_from: `last`/allow_missing_positional multi-valued positional, or a command whose positional "
+              "counter cannot move) has the tail byte-for-byte and in order as the suffix of its last value group (split "
+              "only at a declared delimiter, not at all with dont_delimit_trailing_values); for levels of class chainc "
+              "(single-valued positionals followed by a multi-valued one) the tail tokens are distributed in order, one to "
+              "each single-valued positional from the counter on and the rest to the multi-valued one, and the tail cannot "
+              "overflow into an external subcommand; an external subcommand selected "
+              "by the prefix receives `--` and the tail verbatim.  Two successful parses of the same prefix with different "
+              "tails (the empty one included) agree on every command-line entry of that level outside the positional's "
+              "overrides/groups relation and on all entries of the levels above it.  A help/version outcome of parse_top on `bin pre.. -- tail..` is the "
+              "outcome (same error) for every other tail: no tail token causes it (the invariant that a Help/Version "
+              "argument is never pending is proved for all reachable states; the phases after the loop, the help "
+              "subcommand and the recursion into subcommands are covered).  Underneath: once trailing_values is set the loop equals, for every "
+              "command, token list and state, a loop that only compares a token with a value terminator and pushes it.  "
+              "The model is tied to clap_builder by running the extracted model and the real crate on the same generated "
+              "cases on every check; an independent python oracle (values end with the tail, no tail token selects a "
+              "subcommand/help/version, same outcome and same command-line entries as with an innocuous tail) runs on the "
+              "implementation's output.")
+LEVEL_NOTE = ("Trusted: Coq kernel, extraction, OCaml driver, Rust harness, generators. Differential/oracle only: commands "
+              "outside esc_class / sink_from / chainc (hyphen-accepting arguments, Append num_args(1) positionals, "
+              "terminators, globals, ignore_errors)."
+              "")
 
 SEP = " ;; "
 INNOCUOUS = [b"zz", b"w7", b"q"]
